@@ -67,3 +67,9 @@ Theorem C02_revision_invariant_reestablished :
     obj_revision o' = Some (ow_rev ow).
 Proof. exact rec_obj_revision_consistent_after. Qed.
 Print Assumptions C02_revision_invariant_reestablished.
+
+(** The per-apply monitor evaluated on the implementation (coq/corr/C02Corr.v) accepts every pass of the model. *)
+From PKOCorr Require Import PhaseCorr C02Corr C05Sound C02Sound.
+Theorem C02_monitor_sound : forall c : pcase, C02Corr.monitor (set_obs c (model_run c)) = true.
+Proof. exact C02Sound.monitor_sound. Qed.
+Print Assumptions C02_monitor_sound.
